@@ -620,7 +620,7 @@ class PVLParser(object):
             return set_seq
 
         # First item:
-        set_seq.append(self.parse_value(tokens))
+        set_seq.append(self._parse_set_seq_value(delimiters, tokens))
         if self.parse_WSC_until(delimiters[1], tokens):
             return set_seq
 
@@ -629,7 +629,7 @@ class PVLParser(object):
             # print(f'in loop, t: {t}, set_seq: {set_seq}')
             if t == ",":
                 self.parse_WSC_until(None, tokens)  # consume WSC after ','
-                set_seq.append(self.parse_value(tokens))
+                set_seq.append(self._parse_set_seq_value(delimiters, tokens))
                 if self.parse_WSC_until(delimiters[1], tokens):
                     return set_seq
             else:
@@ -638,6 +638,22 @@ class PVLParser(object):
                     ValueError,
                     "While parsing, expected a comma (,)" f'but found: "{t}"',
                 )
+
+        raise ParseError(self._unterminated_msg(delimiters))
+
+    @staticmethod
+    def _unterminated_msg(delimiters) -> str:
+        return (
+            "Ran out of tokens before finding the end delimiter "
+            f'"{delimiters[1]}" of a Set or Sequence.'
+        )
+
+    def _parse_set_seq_value(self, delimiters, tokens: abc.Generator):
+        """Parses one element of a PVL Set or Sequence."""
+        try:
+            return self.parse_value(tokens)
+        except StopIteration:
+            raise ParseError(self._unterminated_msg(delimiters))
 
     def parse_set(self, tokens: abc.Generator) -> frozenset:
         """Parses a PVL Set.
